@@ -258,6 +258,7 @@ def build(reg):
     reg.shape("TwTransport", fields={}, methods={"write": "tw.write", "abortConnection": "tw.drop",
                                                  "loseConnection": "tw.drop"})
     reg.shape("TwTransportNoAbort", fields={}, methods={"write": "tw.write", "loseConnection": "tw.drop"})
+    reg.shapes["TwTransportNoAbort"].absent = ("abortConnection",)      # declared: a transport without abortConnection()
     reg.shape("TwFactory", fields={"_serializers": "dict:int->sym:SerRec", "_serializer": "sym:SerRec",
                                    "_factory": "cb:session_factory"})
     TWF = {"log": "logger", "_handshake_complete": "bool", "_handshake_bytes": "bytes", "_max_len_send": "opt:int",
@@ -437,6 +438,7 @@ def build_asyncio(reg, common):
     # ============================================================ asyncio RawSocket
     reg.shape("AioTransport", fields={}, methods={"write": "tw.write", "close": "tw.close", "abort": "tw.drop"})
     reg.shape("AioTransportNoAbort", fields={}, methods={"write": "tw.write", "close": "tw.close"})
+    reg.shapes["AioTransportNoAbort"].absent = ("abort",)               # declared: a transport without abort()
     reg.shape("AioFactory", fields={"_serializers": "dict:int->sym:SerRec", "_serializer": "sym:SerRec",
                                     "_factory": "cb:session_factory"})
     AIOF = {"log": "logger", "transport": "opt:obj:AioTransport|obj:AioTransportNoAbort", "_buffer": "bytes",
